@@ -19,6 +19,7 @@ package ledger
 //@ ghost committedLogs int
 //@ ghost committedFnRuns int
 //@ ghost lastBalances map[string]map[string]*big.Int
+//@ ghost lastRevertModified bool
 
 //@ function hasBal(b map[string]map[string]*big.Int, a string, x string) bool = has(b, a) && has(b[a], x)
 //@ function balOf(b map[string]map[string]*big.Int, a string, x string) int = val(b[a][x])
@@ -60,7 +61,8 @@ package ledger
 //@   ensures transaction.Postings == old(transaction.Postings) && transaction.Metadata == old(transaction.Metadata) && transaction.Timestamp == old(transaction.Timestamp) && transaction.Reference == old(transaction.Reference)
 
 //@ assumed func (s Store) RevertTransaction(ctx context.Context, id uint64, at time.Time) (tx *ledger.Transaction, modified bool, err error)
-//@   modifies writes
+//@   modifies writes, lastRevertModified
+//@   ensures lastRevertModified == (err == nil && modified)
 //@   ensures writes == store(old(writes), s, old(writes)[s] + 1)
 //@   ensures err == nil ==> tx != nil
 //@   ensures err == nil && modified ==> tx.RevertedAt != nil && tx.ID != nil && amountsNonNil(tx.Postings)
@@ -206,7 +208,9 @@ package ledger
 
 //@ func (ctrl *DefaultController) revertTransaction(ctx context.Context, store Store, _schema *ledger.Schema, parameters Parameters[RevertTransaction]) (r *ledger.RevertedTransaction, err error)
 //@   property C06 C07 C15
-//@   modifies writes, lastBalances
+//@   modifies writes, lastBalances, lastRevertModified
+//@   ensures !lastRevertModified ==> err != nil && writes[store] == old(writes)[store] + 1
+//@   ensures err == nil ==> has(r.RevertTransaction.Metadata, revertsKey()) && r.RevertTransaction.Metadata[revertsKey()] == str(deref(r.RevertedTransaction.ID))
 //@   ensures forall h Store :: {writes[h]} h != store ==> writes[h] == old(writes)[h]
 //@   ensures err == nil ==> r != nil
 //@   ensures err == nil ==> isReverse(r.RevertTransaction.Postings, r.RevertedTransaction.Postings)
